@@ -64,6 +64,25 @@ class _SimState:
 
 SIM = None
 
+_TASK_SEQ = None
+def task_seq():
+    """Small deterministic number for the current asyncio task (order of first sight)."""
+    global _TASK_SEQ
+    import weakref
+    if _TASK_SEQ is None:
+        _TASK_SEQ = (weakref.WeakKeyDictionary(), [0])
+    try:
+        t = asyncio.current_task()
+    except RuntimeError:
+        return None
+    if t is None:
+        return None
+    m, c = _TASK_SEQ
+    if t not in m:
+        c[0] += 1
+        m[t] = c[0]
+    return m[t]
+
 class SimTransport:
     def __init__(self):
         self.returncode = None
@@ -211,7 +230,7 @@ class SimLoop(asyncio.SelectorEventLoop):
         dd = SIM.cfg.get("sub_durations")
         if dd is not None and n - 1 < len(dd):
             d, at_start = dd[n - 1][0], bool(dd[n - 1][1])
-        SIM.log("sub-start", self.time(), n, desc, _rel(cwd or "", SIM.root), d, at_start)
+        SIM.log("sub-start", self.time(), n, desc, _rel(cwd or "", SIM.root), d, at_start, task_seq())
         SIM.running += 1
         SIM.max_running = max(SIM.max_running, SIM.running)
         box = {}
